@@ -658,6 +658,9 @@ PrinterPtr Printer::create() noexcept
 
 std::string Printer::printModel(const ModelPtr &model, bool autoIds)
 {
+    // Clear any issues in place.
+    pFunc()->removeAllIssues();
+
     if (model == nullptr) {
         return "";
     }
